@@ -42,10 +42,11 @@ def obs (w : World) (s : St) (o : Out) : String :=
     else ""
   base ++ it ++ fs
 
-/-- white-box rendering of the tree with the stored fields: `(left key:height:slope right)` -/
+/-- white-box rendering of the tree with the item ids and stored fields:
+    `(left id/key:height:slope right)` -/
 def render : Tree → String
   | .nil => "."
-  | .node _ k _ h s l r => s!"({render l} {k}:{h}:{s} {render r})"
+  | .node i k _ h s l r => s!"({render l} {i}/{k}:{h}:{s} {render r})"
 
 def parseOp : List String → Option Op
   | ["ins", k, v] => do pure (.insert (← k.toInt?) (← v.toInt?))
@@ -84,7 +85,7 @@ def stepLine (w : World) (ws : List String) : World × String :=
       | some s =>
         match rest with
         | ["nop"] => (w, obs w s ⟨.none, 0⟩)
-        | ["wb"] => (w, render s.t)
+        | ["wb"] => (w, render s.t ++ " free" ++ String.join (s.free.map (fun i => s!" {i}")))
         | [op, src] =>
           if op = "assign" ∨ op = "insall" ∨ op = "copy" then
             match src.toNat? with
